@@ -4,7 +4,7 @@ CHECK = {
     "level": "model_checking",
     "engines": ["space", "sched"],
     "technique": "explicit-state BFS over real tables vs Go map + preemption-bounded schedule DFS (controlled scheduler) with linearizability oracle",
-    "level_text": "Every mutating operation of the alphabet is applied in every reachable physical state of the real open-addressing table (cloned by value) and compared with a Go map on every alphabet key; the real bounded Cache is explored by history replay; every schedule (<=2/3 preemptions) of 2-3 threads on forced-colliding keys is executed on the real code and its call/return history checked for linearizability, capacity, lock nesting and count==reachable.",
+    "level_text": "Every mutating operation of the alphabet is applied in every reachable physical state of the real open-addressing table (cloned by value) and compared with a Go map on every alphabet key; the real bounded Cache is explored by history replay; every schedule (<=2/3 preemptions) of 2-3 threads on forced-colliding keys is executed on the real code and its call/return history checked for linearizability, capacity, lock nesting and count==reachable. Unit limiter also judges the 'no global lock' clause on the limiter store (with ample capacity, which threads' Get of a new key take the store's exclusive lock): a known finding, see KNOWN_FINDINGS.json.",
     "level_note": "Trusted: the vsync/vatomic shims model Go's sync semantics (sequential consistency); table sizes 8/16 slots, 16 segments in scheduled scenarios; a free-running -race pass of the same bodies guards unsynchronised accesses.",
     "rule": "explicit-state BFS over the real UInt64Map (state = exact physical table, every mutating op applied in every reached state, lock-step vs Go map) and over the real bounded Cache by history replay; 'nontrivial' = distinct physical states holding >=3 (map) / >=2 (cache) entries; plus preemption-bounded DFS of 3-thread scenarios on the real Cache under the vsync/vatomic controlled scheduler",
     "assumptions": ["sequential consistency (Go race detector pass is the only guard for weaker orderings)",
